@@ -18,8 +18,12 @@ if ! cargo +nightly fuzz build $target >"$work/build.log" 2>&1; then
   echo "INCONCLUSIVE: cargo fuzz build $target failed" >&2; tail -5 "$work/build.log" >&2; exit 2
 fi
 jobs=${FUZZ_JOBS:-8}
+# C16 judges panic-freedom only: oracle failures of the target that are not panics (verdict vs reference, batch vs
+# singletons) belong to C02 / C03 / C15; for C16 the campaign keeps going past them and only panics are confirmed
+po=""; ign=0
+[ "$id" = "C16" ] && { po="panic-only"; ign=1; }
 cargo +nightly fuzz run $target "$work/corpus" -- -runs=$runs -seed=$seed -len_control=0 -max_len=4096 -timeout=25 \
-   -rss_limit_mb=4096 -artifact_prefix="$work/art/" -print_final_stats=1 -fork=$jobs -ignore_crashes=0 >"$work/run.log" 2>&1
+   -rss_limit_mb=4096 -artifact_prefix="$work/art/" -print_final_stats=1 -fork=$jobs -ignore_crashes=$ign >"$work/run.log" 2>&1
 code=$?
 execs=$(grep -Eo 'fuzzed for [0-9]+ iterations' "$work/run.log" | tail -1 | awk '{print $3}')
 [ -z "$execs" ] && execs=$(grep -Eo '^#[0-9]+' "$work/run.log" | tail -1 | tr -d '#')
@@ -31,13 +35,13 @@ confirmed=0
 for a in "$work"/art/crash-* "$work"/art/oom-* "$work"/art/timeout-*; do
   [ -f "$a" ] || continue
   case "$a" in *crash-*) ;; *) continue ;; esac
-  if ! "$ROOT/harness/target/release/bpcheck" fuzz-replay $target "$a" >/dev/null 2>&1; then
+  if ! BPCHECK_CHILD=1 "$ROOT/harness/target/release/bpcheck" fuzz-replay $target "$a" $po >/dev/null 2>&1; then
     mkdir -p "$ROOT/replays/$id"
     dst="$ROOT/replays/$id/fuzz-$target-$(sha1sum "$a" | cut -c1-12).json"
     python3 - "$a" "$dst" "$id" "$target" <<'PY'
 import json,sys
 b=list(open(sys.argv[1],'rb').read())
-json.dump({"property":sys.argv[3],"sub":"R/corpus-replay(%s)"%sys.argv[4],"reason":"libFuzzer artifact; oracle of target fails","case":{"target":sys.argv[4],"name":"libfuzzer-artifact","bytes":b}},open(sys.argv[2],'w'))
+json.dump({"property":sys.argv[3],"sub":"R/corpus-replay(%s)"%sys.argv[4],"reason":"libFuzzer artifact; oracle of target fails","case":{"panic_only":sys.argv[3]=="C16","target":sys.argv[4],"name":"libfuzzer-artifact","bytes":b}},open(sys.argv[2],'w'))
 PY
     echo "VIOLATION property=$id replay=$dst"
     confirmed=1
@@ -55,5 +59,5 @@ except Exception as x:
     print("evidence update failed:",x,file=sys.stderr)
 PY
 [ $confirmed -eq 1 ] && exit 1
-if [ $code -ne 0 ]; then echo "INCONCLUSIVE: libFuzzer exited with $code without a confirmed oracle failure (timeout / rss limit?)" >&2; tail -5 "$work/run.log" >&2; exit 2; fi
+if [ $code -ne 0 ] && [ $ign -eq 0 ]; then echo "INCONCLUSIVE: libFuzzer exited with $code without a confirmed oracle failure (timeout / rss limit?)" >&2; tail -5 "$work/run.log" >&2; exit 2; fi
 exit 0
